@@ -39,7 +39,7 @@ REQUIRED_PROBES = ['fragment_at_contig_start', 'contig_with_only_placed_unmapped
 def plan(tier):
     if tier == 'quick':
         return {'runs': 480, 'budget_s': 50, 'chunk': 2, 'per_run_timeout': 900}
-    return {'runs': 16000, 'budget_s': 570, 'chunk': 4, 'per_run_timeout': 1800}
+    return {'runs': 40000, 'budget_s': 540, 'chunk': 4, 'per_run_timeout': 1800}
 
 
 def setup():
